@@ -224,3 +224,18 @@ func TestRandom(t *testing.T) {
 		}
 	})
 }
+
+// FuzzCodecs is the native coverage-guided target used by the thorough tier (round-trip oracle inside).
+func FuzzCodecs(f *testing.F) {
+	f.Add(uint8(0), []byte{})
+	f.Add(uint8(3), []byte{0, 0, 0, 0})
+	f.Add(uint8(3), []byte("hello world, this is a test"))
+	f.Add(uint8(5), []byte{1, 2, 3, 4, 5, 6, 7})
+	f.Add(uint8(4), bytes.Repeat([]byte{0xff}, 13))
+	f.Fuzz(func(t *testing.T, ci uint8, in []byte) {
+		c := codecs[int(ci)%len(codecs)]
+		if msg := check(c, in, "fuzz"); msg != "" {
+			t.Fatalf("%s", msg)
+		}
+	})
+}
